@@ -73,6 +73,60 @@ func runC17(c *Ctx) {
 		sort.Strings(bad)
 		c.verdict(len(g.sites) >= 1 && len(bad) == 0, c.nm(fn)+" | a failed Subscribe ends the rescan", c.P.Pos(fn.Pos()), fmt.Sprintf("%d Subscribe call(s): the failure edge reaches only returns", len(subs)), join(uniq(bad)), c.ats(subs)...)
 	})
+	c.rule("C17.O5", "a rescan notices that its subscription was shut down: closing the Notifications channel is how the subscription manager releases a rescan at Stop (a rescan watches its caller's quit channel, not the client's), so every receive from blockntfns.Subscription.Notifications in the root package tests the receive's ok result, and the edge on which the channel is found closed reaches only returns (a closed channel is always ready: skipping it spins forever and the rescan's caller is never released)", func() {
+		notif := c.field("blockntfns", "Subscription", "Notifications")
+		n := 0
+		var bad []string
+		var sites []ssa.Instruction
+		for _, fn := range c.P.Funcs {
+			if pkgOf(fn) == nil || pkgOf(fn).Path() != ir.ModPath {
+				continue
+			}
+			back := ir.BackEdges(fn)
+			ir.Instrs(fn, func(in ssa.Instruction) {
+				sel, ok := in.(*ssa.Select)
+				if !ok {
+					return
+				}
+				recv := false
+				for _, st := range sel.States {
+					if st.Dir == types.RecvOnly && loadsField(notif)(st.Chan) {
+						recv = true
+					}
+				}
+				if !recv {
+					return
+				}
+				n++
+				sites = append(sites, in)
+				tested := 0
+				for _, r := range ir.Refs(sel) {
+					ex, isEx := r.(*ssa.Extract)
+					if !isEx || ex.Index != 1 {
+						continue
+					}
+					for _, br := range ir.TrueBranches(ex) {
+						tested++
+						e := br.Other()
+						if br.Pol < 0 {
+							continue
+						}
+						reach := ir.Reach([]*ssa.BasicBlock{e.From.Succs[e.Succ]}, nil)
+						for be := range back {
+							if reach[be.From] {
+								bad = append(bad, c.nm(fn)+": after the subscription is found closed at "+c.at(br.If)+" the loop can go round again")
+							}
+						}
+					}
+				}
+				if tested == 0 {
+					bad = append(bad, c.nm(fn)+": the receive at "+c.at(in)+" does not test whether the channel was closed")
+				}
+			})
+		}
+		sort.Strings(bad)
+		c.verdict(n >= 2 && len(bad) == 0, "neutrino | a closed block subscription ends the rescan", "", fmt.Sprintf("%d receive(s) from Subscription.Notifications, each with an ok test whose closed edge only returns", n), join(uniq(bad)), c.ats(sites)...)
+	})
 	c.rule("C17.P2", "Stop completes: "+eventsUnlockedDoc, func() { c.eventsUnlocked() })
 	c.rule("C17.B1", "blocking discipline over both modules: every blocking select has an arm that becomes ready at shutdown or after a bounded time (a close-only signal channel, context.Done or a timer); every unconditional send / receive is a tabled site with a reason and a supporting obligation; buffered classes are allocated with constant capacity >= 1", func() {
 		// reply sends of handleQuery: one row per type-switch case that carries a
